@@ -18,7 +18,7 @@ RULE = (
     "every (ref, hyp) pair of stored sequences over the alphabet {0,1,2} with tensor sizes "
     "R,H in 0..3 (quick) / 0..4 (thorough), pushed through the implementation as one ragged "
     "batch per (R,H) and again in reversed batch order and (thorough: also one pair at a time); "
-    "x cost triples x eos in {None,2} x include_eos x norm x batch_first x "
+    "x cost triples (the shared menu and (1e-4,1,1e-4), (1,1e-4,1): costs four orders of magnitude apart) x eos in {None,2} x include_eos x norm x batch_first x "
     "{edit_distance, prefix_edit_distances(exclude_last both, three padding values, one of which (2) collides with legitimate distances)} x "
     "{functional, module}. Cases are distinct by construction (cartesian product of "
     "duplicate-free generators); a case is non-trivial when ref and hyp (as counted) differ "
@@ -37,6 +37,9 @@ PAD2 = -7
 PAD3 = 2
 
 
+# costs four orders of magnitude apart (round 6): representable inputs and results, but an intermediate such as
+# v[j] - j * del_cost swallows the small costs in float32
+EXTREME_COSTS = [(1e-4, 1.0, 1e-4), (1.0, 1e-4, 1.0)]
 LARGE = [(127, 120, 100), (255, 250, 17)]  # (R, H, N): long sequences x many pairs, beyond the small scope
 
 
@@ -45,6 +48,7 @@ def shards(tier, seed):
     LIFE = [{"lifecycle": [n]} for n in ['EditDistance', 'PrefixEditDistances']]
     out = [{"R": R, "H": H} for R in range(L + 1) for H in range(L + 1)]
     out += [{"large": list(x), "cost": c} for x in LARGE for c in ((1.0, 1.0, 1.0), (1.0, 0.5, 2.0))]
+    out += [{"large": list(LARGE[0]), "cost": c} for c in EXTREME_COSTS]
     # the same kind of instance with token ids >= 2^24, and through scripted / traced modules
     out += [{"large": [31, 30, 40], "cost": (1.0, 2.0, 3.0), "id_offset": S.BIG_ID},
             {"large": [31, 30, 40], "cost": (0.5, 0.5, 0.5), "id_offset": S.BIG_ID},
@@ -61,12 +65,13 @@ def _large(ctx, R, H, N, cost, seed, id_offset=0, jit=False):
     tensors are offset, non-contiguous views; id_offset moves the alphabet to ids >= 2^24."""
     eos = 3 + id_offset
     refs, hyps, ref, hyp = S.large_batch(R, H, N, seed, 3, id_offset)
-    ci, cd, cs = (int(round(c * 2)) for c in cost)
+    scale = 2 if all(c * 2 == round(c * 2) for c in cost) else 10000  # exact integer costs for the reference DP
+    ci, cd, cs = (int(round(c * scale)) for c in cost)
     for include_eos in (False, True):
         exp = []
         for n in range(N):
             er, eh = O.effective(refs[n], eos, include_eos), O.effective(hyps[n], eos, include_eos)
-            exp.append(O.lev_int(er, eh, ci, cd, cs) / 2.0)
+            exp.append(O.lev_int(er, eh, ci, cd, cs) / float(scale))
         for batch_first in (False, True):
             r_in, h_in = (ref.t(), hyp.t()) if batch_first else (ref, hyp)
             kw = dict(eos=eos, include_eos=include_eos, batch_first=batch_first, ins_cost=cost[0],
@@ -265,7 +270,7 @@ def run_shard(spec, tier, seed):
     ctx.sample({"R": R, "H": H, "N": len(pairs), "first_pairs": pairs[:3], "last_pair": pairs[-1]})
     ci = 0
     for eos, include_eos in S.eos_cfgs():
-        for cost in S.costs(tier):
+        for cost in S.costs(tier) + EXTREME_COSTS:
             ci += 1
             modules = tier == "thorough" or ci % 4 == 0
             if tier == "thorough" or ci % 2 == 0:
